@@ -12,7 +12,7 @@
    reference semantics up to merging of character tokens, agreement with the Rust code, the tree-builder half, the
    normalisation law tree(x) = tree(normalise x). *)
 From Coq Require Import List NArith Bool.
-From HV Require Import TokIR.IR TokIR.Interp TokIR.Checks TokIR.Chunk TokIR.ChunkInv Gen.GenXmlTok Inst.InstXmlTok Inst.InstChunk.
+From HV Require Import TokIR.IR TokIR.Interp TokIR.Checks TokIR.Chunk TokIR.QueueSim TokIR.ChunkInv Gen.GenXmlTok Inst.InstXmlTok Inst.InstChunk.
 Import ListNotations.
 
 Theorem C15_bulk_sets_adequate : sets_adequate xstate_beq false xml_table = [].
@@ -61,3 +61,20 @@ Theorem C15_feeding_keeps_invariant :
   feed_chunks xml_flavour true xml_table simd ent c1 sk inj m cs m' -> J xml_table m -> J xml_table m'.
 Proof. exact xml_feed_chunks_keeps_J. Qed.
 Print Assumptions C15_feeding_keeps_invariant.
+
+(* T2 for exact_errors = true (TokIR/QueueSim.v, generic in the table): the interpreter over the CHUNKED queue - the one the
+   correspondence check runs against the Rust tokenizer - and the reference interpreter over the flat queue deliver the
+   same tokens with parse errors and line numbers, the same configuration, unread input and results, for every list of
+   chunks, sink script, injected text and fuel: with exact_errors the interpreter never takes a bulk read, and every
+   queue operation is adequate for its flat reading.  (For exact_errors = false the two differ by the merging of
+   adjacent character tokens and by the fast path's missing per-character errors: that leg stays differential.) *)
+Theorem C15_chunked_interpreter_is_reference_exact :
+  forall simd ent c1 sk fuel inject chunks (m : mach _ queue) log,
+  wfq (mq m) ->
+  let r := drive_chunked xml_flavour true xml_table simd ent c1 sk fuel inject chunks m log in
+  let r' := drive_flat xml_flavour true xml_table simd ent c1 sk fuel inject chunks (mkmach (mc m) (qflat (mq m)) (mout m) (mcons m)) log in
+  wfq (mq (fst r)) /\
+  mc (fst r) = mc (fst r') /\ qflat (mq (fst r)) = mq (fst r') /\ mout (fst r) = mout (fst r') /\ mcons (fst r) = mcons (fst r') /\
+  snd r = snd r'.
+Proof. exact (chunked_is_reference_exact xml_flavour xml_table). Qed.
+Print Assumptions C15_chunked_interpreter_is_reference_exact.
